@@ -85,6 +85,11 @@ def _tmp_dir():
         d = tempfile.mkdtemp(prefix='pyvc_c18_', dir='/tmp')
         _TMP.append(d)
         atexit.register(shutil.rmtree, d, ignore_errors=True)
+        try:      # pool workers of ./check leave through os._exit: multiprocessing finalizer instead of atexit
+            from multiprocessing import util as _mpu
+            _mpu.Finalize(None, shutil.rmtree, args=(d,), kwargs=dict(ignore_errors=True), exitpriority=0)
+        except Exception:
+            pass
     return _TMP[0]
 
 
